@@ -39,6 +39,7 @@ class BatchBase(futures.FutureBase):
     def __init__(self):
         futures.FutureBase.__init__(self)  # Cython doesn't support super(...)
         self.items = []
+        self._flushing = False
 
     def is_flushed(self):
         return self.is_computed()
@@ -78,7 +79,7 @@ class BatchBase(futures.FutureBase):
           on attempt to access values of underlying batch items.
 
         """
-        if self.is_computed():
+        if self._flushing or self.is_computed():
             raise BatchingError("Batch is already flushed or cancelled.")
         if _debug_options.DUMP_FLUSH_BATCH:
             debug.write("@async: -> batch flush:")
@@ -108,12 +109,17 @@ class BatchBase(futures.FutureBase):
 
     def _compute(self):
         self._try_switch_active_batch()
+        # While the flush body runs the batch must not be flushed again, even if the body
+        # re-enters the scheduler (see flush() and TaskScheduler._select_batch_to_flush()).
+        self._flushing = True
         try:
             self._flush()
             self.set_value(None)
         except BaseException as error:
             if not self.is_computed():
                 self.set_error(error)
+        finally:
+            self._flushing = False
 
     def _computed(self):
         # The purpose of this overridden method is to ensure that
